@@ -1216,6 +1216,97 @@ fn competing_mates_family(stride: usize) -> Vec<Position> {
     out
 }
 
+/// Material signatures around the evaluation's endgame threshold: every multiset of officers and
+/// pawns (q,r,b,n <= 2, p <= 8) whose value (900/500/330/320/100) lies within `band` of 1800 for the
+/// stronger side, against each of a fixed list of weaker sides (bare king, one man of each kind, the
+/// same multiset), either side to move, one deterministic placement each (first valid one of a
+/// fixed pseudo-random sequence: nobody in check, no promotion move available to either side).
+fn material_threshold_family(band: i32, per_signature: usize) -> Vec<Position> {
+    use refchess::Pc;
+    let mut out = vec![];
+    let mut sig = 0u64;
+    for q in 0..=2usize {
+        for r in 0..=2usize {
+            for b in 0..=2usize {
+                for n in 0..=2usize {
+                    for pw in 0..=8usize {
+                        let total = (q * 900 + r * 500 + b * 330 + n * 320 + pw * 100) as i32;
+                        if (total - 1800).abs() > band || q + r + b + n + pw > 15 {
+                            continue;
+                        }
+                        let strong: Vec<Pc> = std::iter::repeat(Pc::Q).take(q).chain(std::iter::repeat(Pc::R).take(r)).chain(std::iter::repeat(Pc::B).take(b)).chain(std::iter::repeat(Pc::N).take(n)).chain(std::iter::repeat(Pc::P).take(pw)).collect();
+                        let weak_sides: Vec<Vec<Pc>> = vec![vec![], vec![Pc::P], vec![Pc::N], vec![Pc::B], vec![Pc::R], vec![Pc::Q], vec![Pc::R, Pc::P], strong.clone()];
+                        for weak in weak_sides {
+                            for strong_col in [Col::W, Col::B] {
+                                for turn in [Col::W, Col::B] {
+                                    sig += 1;
+                                    let mut state = sig.wrapping_mul(0x9E37_79B9_7F4A_7C15) | 1;
+                                    let mut next = |m: u64| {
+                                        state ^= state << 13;
+                                        state ^= state >> 7;
+                                        state ^= state << 17;
+                                        (state >> 11) % m
+                                    };
+                                    let mut found = 0;
+                                    for _try in 0..400 {
+                                        let mut p = Position::empty();
+                                        p.turn = turn;
+                                        p.full = 1;
+                                        let mut ok = true;
+                                        let mut put = |p: &mut Position, c: Col, pc: Pc, next: &mut dyn FnMut(u64) -> u64| -> bool {
+                                            for _ in 0..64 {
+                                                let sq = if pc == Pc::P {
+                                                    // own ranks 2..6: no promotion next move
+                                                    let rank = 1 + next(5) as u8;
+                                                    let rank = if c == Col::W { rank } else { 7 - rank };
+                                                    rank * 8 + next(8) as u8
+                                                } else {
+                                                    next(64) as u8
+                                                };
+                                                if p.board[sq as usize].is_none() {
+                                                    p.board[sq as usize] = Some((c, pc));
+                                                    return true;
+                                                }
+                                            }
+                                            false
+                                        };
+                                        ok &= put(&mut p, Col::W, Pc::K, &mut next);
+                                        ok &= put(&mut p, Col::B, Pc::K, &mut next);
+                                        for &pc in &strong {
+                                            ok &= put(&mut p, strong_col, pc, &mut next);
+                                        }
+                                        for &pc in &weak {
+                                            ok &= put(&mut p, strong_col.flip(), pc, &mut next);
+                                        }
+                                        if !ok || p.valid_root().is_err() {
+                                            continue;
+                                        }
+                                        let mut other = p.clone();
+                                        other.turn = turn.flip();
+                                        if other.valid_root().is_err() {
+                                            // somebody is in check
+                                            continue;
+                                        }
+                                        if p.legal_moves().is_empty() || p.legal_moves().iter().any(|m| m.promo.is_some()) {
+                                            continue;
+                                        }
+                                        out.push(p);
+                                        found += 1;
+                                        if found >= per_signature {
+                                            break;
+                                        }
+                                    }
+                                }
+                            }
+                        }
+                    }
+                }
+            }
+        }
+    }
+    out
+}
+
 pub fn run_c13(args: &Args) -> i32 {
     let report = Report::new("C13", args.tier, args.seed, "exploration");
     silence_panics();
@@ -1264,6 +1355,12 @@ pub fn run_c13(args: &Args) -> i32 {
             }
         }
     }
+    // material signatures around the endgame threshold of the evaluation
+    {
+        let fam = material_threshold_family(args.tier.pick(100, 200), args.tier.pick(1, 3));
+        eprintln!("[C13] material-threshold family: {} positions", fam.len());
+        positions.extend(fam);
+    }
     // no promotion available at the root (property text); one representative per mirror pair
     positions.retain(|p| !p.legal_moves().iter().any(|m| m.promo.is_some()) && !p.mirror().legal_moves().iter().any(|m| m.promo.is_some()));
     let mut seen = std::collections::BTreeSet::new();
@@ -1295,7 +1392,7 @@ pub fn run_c13(args: &Args) -> i32 {
         json!({
             "evaluations": compared,
             "distinct_nontrivial": pairs_with_depth,
-            "rule": "positions of the C11 catalogue plus every 811th (thorough 47th) position of the C12 endgame families and every 37th (thorough 5th) member of the castling family, with no promotion move at the root (either colour), one representative per mirror pair; the position and its colour mirror are each searched with empty history at expiry points k = 8, 10, 12, ... (ratio 1.25) up to the cap; the score committed for each completed depth is collected from those runs, and every depth both searches report is compared (score == negated mirror score). evaluations = (pair, depth) comparisons; non-trivial = pairs with at least one common completed depth.",
+            "rule": "positions of the C11 catalogue plus every 811th (thorough 47th) position of the C12 endgame families and every 37th (thorough 5th) member of the castling family, plus a material-signature family (every multiset q,r,b,n <= 2, p <= 8 worth 1800 +-100 (thorough +-200) against eight weaker sides, both colours, both sides to move, one (thorough three) deterministic placement each), with no promotion move at the root (either colour), one representative per mirror pair; the position and its colour mirror are each searched with empty history at expiry points k = 8, 10, 12, ... (ratio 1.25) up to the cap; the score committed for each completed depth is collected from those runs, and every depth both searches report is compared (score == negated mirror score). evaluations = (pair, depth) comparisons; non-trivial = pairs with at least one common completed depth.",
             "mirror_pairs": positions.len(),
             "pairs_by_number_of_depths_compared": by_depth.iter().map(|(k, v)| json!([k, v])).collect::<Vec<_>>(),
             "cap_k": cap, "max_depth_compared": max_depth,
